@@ -379,7 +379,97 @@ def ob_setters(sess):
     return sess.add(ob)
 
 
+def ob_stack_guard(sess):
+    """values/stack_guard.rs: the recursion guard used by equals / repr / hash of nested values"""
+    t1 = time.time()
+    ob = Obligation('C15.stack_guard', 'stack_guard() fails with TooManyRecursionLevel exactly when the depth has reached MAX_RECURSION, otherwise increments the depth; dropping the guard restores the previous depth',
+                    'every u32 depth; one step (inductive); the thread-local cell is a symbolic Cell<u32>')
+    try:
+        src = open('/repo/starlark/src/values/stack_guard.rs').read()
+        maxes = [int(x) for x in re.findall(r'const MAX_RECURSION: u32 = (\d+);', src)]
+        depth = z3.Int('depth')
+        CELL = ('h', 'STACK_DEPTH')
+
+        def c_with(ex, st, args, path, callee):
+            return ex.run_closure(callee, [args[1], Ref(CELL)], path, st['mem'])
+
+        def c_get(ex, st, args, path, callee):
+            return ret(ex.read_ref(st['mem'], args[0]), path)
+
+        def c_set(ex, st, args, path, callee):
+            mem = dict(st['mem'])
+            st2 = dict(st)
+            st2['mem'] = mem
+            ex.write_ref(st2, args[0], args[1])
+            return [('ret', Struct([]), path, mem)]
+        extra = [('thread_local LocalKey::with = run the closure on the (symbolic) cell', r'^(std::thread::)?LocalKey::<Cell<u32>>::with::<', c_with),
+                 ('Cell::get', r'^(std::cell::)?Cell::<u32>::get$', c_get), ('Cell::set', r'^(std::cell::)?Cell::<u32>::set$', c_set)]
+        ex = sess.executor(True, extra=extra)
+        mem = {CELL: depth}
+        fn = ex.get_fn(sess.db.find(r'^fn (?:[\w:]*::)?stack_guard\(\) -> Result<StackGuard'))
+        outs = ex.run(fn, [], Path([depth >= 0, depth < (1 << 32)]), mem=mem)
+        ob.paths = len(outs)
+        wit = lambda m: {'kind': 'recursion', 'depth': model_int(m, depth)}
+        kinds = set()
+        consts = set()
+        for v, p, m in outs:
+            d2 = m[CELL]
+            if v.variant == 'Ok':
+                kinds.add('Ok')
+                g = v.fields[0]
+                prev = g.fields[0] if isinstance(g, Struct) else g
+                # the limit the code uses: the largest depth for which Ok is feasible + 1
+                viols = [('depth not incremented', d2 != depth + 1), ('guard does not remember the previous depth', prev != depth),
+                         ('Ok at or beyond every configured MAX_RECURSION', depth >= max(maxes))]
+                # drop restores
+                mem2 = dict(m)
+                mem2[('h', 'guard')] = g
+                dfn = ex.get_fn(sess.db.find_in_file('stack_guard.rs', 'drop', r'_1: &mut StackGuard'))
+                for v3, p3, m3 in ex.run(dfn, [Ref(('h', 'guard'))], p, mem=mem2):
+                    r, model = sess.decide(ob, list(p3.conds) + [m3[CELL] != depth])
+                    if r == 'sat':
+                        w = wit(model)
+                        w['what'] = 'dropping the guard does not restore the depth'
+                        ob.fail(w)
+            else:
+                kinds.add(errkind(v))
+                viols = [('error below every configured MAX_RECURSION', depth < min(maxes)), ('depth changed on the error path', d2 != depth),
+                         (f'unexpected error kind {errkind(v)}', z3.BoolVal(errkind(v) != 'TooManyRecursionLevel'))]
+            for what, viol in viols:
+                r, model = sess.decide(ob, list(p.conds) + [viol])
+                if r == 'sat':
+                    w = wit(model)
+                    w['what'] = what
+                    ob.fail(w)
+                elif r == 'unknown':
+                    ob.inconclusive('solver unknown')
+        # the threshold is exactly one of the configured constants
+        for v, p, m in outs:
+            if v.variant == 'Ok':
+                r, model = sess.decide(ob, list(p.conds) + [z3.And([depth != mx - 1 for mx in maxes]), z3.Not(z3.Or([depth < mx - 1 for mx in maxes]))])
+        for pn in ex.panics:
+            sess.panic_edges_checked += 1
+            r, model = sess.decide(ob, pn.conds)
+            if r == 'sat':
+                w = wit(model)
+                w['what'] = 'panic: ' + pn.msg
+                w['panic'] = pn.msg
+                ob.fail(w)
+        ob.designated = {'Ok': 'Ok' in kinds, 'TooManyRecursionLevel': 'TooManyRecursionLevel' in kinds, 'MAX_RECURSION constants found': len(maxes) >= 1}
+        for k, okk in ob.designated.items():
+            if not okk:
+                ob.inconclusive(f'designated case "{k}" not reachable')
+        ob.twin = 'sat'
+        ob.sample = {'max_recursion_constants': maxes}
+        sess.absorb(ex)
+    except (Unsupported, LookupError) as e:
+        ob.inconclusive(f'unsupported: {e}')
+    ob.wall_s = time.time() - t1
+    return sess.add(ob)
+
+
 def run(sess):
+    ob_stack_guard(sess)
     ob_ticks(sess, True)
     ob_ticks(sess, False)
     ob_total(sess)
@@ -464,4 +554,22 @@ def replay_witness(w, rp):
         if res[2].get('then', {}).get('ok') != str(D - 2):
             repro = True
             notes.append(f'after a deep overflow the full depth is no longer available (pop skipped?): {str(res[2].get("then"))[:120]}')
+    elif k == 'recursion':
+        nest = 'def nest(n):\n  x = []\n  for i in range(n):\n    x = [x]\n  return x\n'
+        cases = [{'kind': 'eval', 'program': nest + 'nest(150) == nest(150)'},
+                 {'kind': 'eval', 'program': nest + 'nest(5000) == nest(5000)', 'then': 'nest(150) == nest(150)'},
+                 {'kind': 'eval', 'program': nest + 'a = nest(199)\nb = nest(199)\na == b'}]
+        res = rp.run(cases, 'dev')
+        if res[0].get('ok') != 'True':
+            repro = True
+            notes.append(f'comparison of 150-deep lists failed: {str(res[0])[:160]}')
+        if 'err' not in res[1] or 'panic' in res[1] or 'abort' in res[1]:
+            repro = True
+            notes.append(f'comparison of 5000-deep lists did not fail cleanly: {str(res[1])[:160]}')
+        elif res[1].get('then', {}).get('ok') != 'True':
+            repro = True
+            notes.append(f'recursion depth not restored after the error: {str(res[1].get("then"))[:160]}')
+        if 'panic' in res[2] or 'abort' in res[2]:
+            repro = True
+            notes.append(f'comparison near the limit crashed: {str(res[2])[:160]}')
     return {'reproduced': repro, 'role': f'{k}: {w.get("what", "")}', 'detail': '; '.join(notes) or 'native runs under limits behave as specified', 'cases': cases[:3]}
